@@ -485,8 +485,8 @@ Lemma round_grid_modes_agree mode thr ph per d : 0 <= mode <= 4 -> i32 thr -> i3
   sk_rs_round true mode thr ph per d = Some (ft_rs_round mode thr ph per d).
 Proof.
   intros Hm Ht Hp Hq Hd. destruct (round_grid_modes_total mode thr ph per d Hm Hd) as [v Hv].
-  rewrite Hv. f_equal. apply (round_state_eq mode thr ph per d v); try assumption; try lia.
-  unfold i32. lia.
+  rewrite Hv. f_equal.
+  apply (round_state_eq mode thr ph per d v); [lia | assumption | assumption | assumption | unfold i32; lia | exact Hv].
 Qed.
 
 Lemma round_super_agree thr ph per d : small thr -> small ph -> small per -> small d ->
@@ -509,3 +509,32 @@ Proof.
   intros H. apply chk32_some in H. destruct H as [-> Hi]. unfold ar32. f_equal. apply wrap_s32_id. exact Hi.
 Qed.
 
+Ltac refine_tac :=
+  steps;
+  repeat match goal with
+  | H : ar32 true _ = Some _ |- _ => apply ar32_refines in H; rewrite H; clear H; cbn [obind]
+  | H : div32 true _ _ = Some _ |- _ => change (div32 true) with (div32 false) in H; rewrite H; clear H; cbn [obind]
+  | H : Some _ = Some _ |- _ => inversion H; clear H; subst
+  end; try reflexivity.
+
+Lemma rs_round_refines mode thr ph per d v : 0 <= mode <= 7 ->
+  sk_rs_round true mode thr ph per d = Some v -> sk_rs_round false mode thr ph per d = Some v.
+Proof.
+  intros Hm H.
+  assert (Hc : mode = 0 \/ mode = 1 \/ mode = 2 \/ mode = 3 \/ mode = 4 \/ mode = 5 \/ mode = 6 \/ mode = 7) by lia.
+  destruct Hc as [-> | [-> | [-> | [-> | [-> | [-> | [-> | ->]]]]]]];
+  unfold sk_rs_round, sk_round, sk_ceil, sk_round_pad, sk_floor_pad in *;
+  try exact H;
+  (destruct (0 <=? d); refine_tac; try assumption;
+   try (match type of H with (if ?c then _ else _) = _ => destruct c end; try assumption;
+        apply ar32_refines in H; exact H)).
+Qed.
+
+Lemma muldiv_noround_refines a b c v :
+  sk_mul_div_no_round true a b c = Some v -> sk_mul_div_no_round false a b c = Some v.
+Proof.
+  intros H. unfold sk_mul_div_no_round in *. cbv zeta in *.
+  destruct (a <? 0), (b <? 0), (c <? 0); cbn [obind] in *; refine_tac;
+  match type of H with (if ?s then _ else _) = _ => destruct s end;
+  try assumption; apply ar32_refines in H; exact H.
+Qed.
